@@ -86,6 +86,11 @@ def gen(rng, kind, tier):
                 "opts": opts, "source": source, "prefilled": bool(rng.random() < 0.2)}
         if rng.random() < 0.08:
             case["offline_processes"] = 2
+        if rng.random() < 0.15:
+            case["stale_file"] = True
+        if opts["refine"] and rng.random() < 0.4:
+            case["quick_look"] = [{"tolerance": 0.3}, {"least_squares_params": {"max_nfev": 3}},
+                                  {"tolerance": 0.1, "vmin": None, "vmax": None}][int(rng.integers(3))]
         return case
     if kind == "lengthscale":
         fam = str(rng.choice(["cart", "cart", "cart", "polar", "cyl"]))
@@ -203,6 +208,14 @@ def run_direct(case, rec):
         rec.check(good, "forwarding",
                   f"locate_droplets inside handle was called with {[{k: v for k, v in e['kwargs'].items()} for e in log[:2]]} "
                   f"- not the tracker's settings/fields; {label}")
+    if case.get("quick_look") and fields:
+        # a quick look at one frame with coarse fit options between the run and the offline analysis
+        # (not judged; it must not influence the later analysis)
+        ql = common.monitored(rec, "quick-look", ia.refine_droplet, fields[0],
+                              droplets.DiffuseDroplet(np.asarray([0.5 * (b[0] + b[1]) for b in grid.axes_bounds]), 2.0, 1.0),
+                              **case["quick_look"])
+        common.monitored(rec, "quick-look", droplets.locate_droplets, fields[-1], refine=True, refine_args=dict(case["quick_look"]))
+        rec.count("quick_look_between_run_and_offline_analysis")
     # offline analysis of the same stored fields
     storage = MemoryStorage.from_fields(times=times, fields=fields)
     kwargs = {"threshold": thr, "minimal_radius": o["minimal_radius"], "refine": o["refine"], "modes": o["modes"], "progress": False}
@@ -223,6 +236,12 @@ def run_direct(case, rec):
         rec.check([float(t) for t in tracker.data.times[n_pre:]] == [float(t) for t in times], "times-as-fed",
                   f"recorded times {tracker.data.times[n_pre:]} != fed times {times}; {label}")
     # file written at the end reads back equal
+    if case.get("stale_file"):
+        # the file name was used before by a longer run
+        old = droplets.EmulsionTimeCourse([droplets.Emulsion([droplets.SphericalDroplet(np.ones(grid.dim), 0.5)])] * (len(times) + 3),
+                                          times=[100.0 + k for k in range(len(times) + 3)])
+        common.monitored(rec, "earlier-file", old.to_file, path)
+        rec.count("tracker_file_written_over_an_earlier_longer_one")
     fin = common.monitored(rec, "finalize", tracker.finalize)
     if rec.check(fin.ok, "no-exception", f"finalize raised {common.exc_text(fin.exc) if fin.exc else ''}; {label}"):
         rd = common.monitored(rec, "from_file", droplets.EmulsionTimeCourse.from_file, path, progress=False)
